@@ -76,6 +76,12 @@ var probeFuncs = map[string]bool{
 	"rtpconn.handleAction":          true,
 	"rtpconn.readLoop":              true,
 	"rtpconn.rtpWriterLoop":         true,
+	"rtpconn.nackWriter":            true,
+	"rtpconn.sendUpRTCP":            true,
+	"rtpconn.handleReport":          true,
+	"rtpconn.rtcpDownListener":      true,
+	"rtpconn.(*rtpDownTrack).adjustLayer": true,
+	"rtpconn.(*rtpDownTrack).updateRate":  true,
 	"diskwriter.(*diskTrack).Write": true,
 	"diskwriter.fetch":              true,
 	"group.AddClient":               true,
@@ -751,9 +757,46 @@ func (rw *rewriter) collect(stmt ast.Stmt) []fieldAccess {
 	return out
 }
 
+// hasAtomic reports whether the expressions owned by stmt call sync/atomic.
+func (rw *rewriter) hasAtomic(stmt ast.Stmt) bool {
+	found := false
+	check := func(n ast.Node) bool {
+		switch x := n.(type) {
+		case *ast.FuncLit, *ast.BlockStmt:
+			return false
+		case *ast.CallExpr:
+			if pkg, _, ok := rw.pkgFunc(x.Fun); ok && pkg == "sync/atomic" {
+				found = true
+			}
+			if se, ok := x.Fun.(*ast.SelectorExpr); ok {
+				if s := rw.info.Selections[se]; s != nil && s.Kind() == types.MethodVal {
+					if f, ok := s.Obj().(*types.Func); ok && f.Pkg() != nil && f.Pkg().Path() == "sync/atomic" {
+						found = true
+					}
+				}
+			}
+		}
+		return !found
+	}
+	switch s := stmt.(type) {
+	case *ast.AssignStmt, *ast.ExprStmt, *ast.ReturnStmt, *ast.IncDecStmt, *ast.DeclStmt:
+		ast.Inspect(s, check)
+	case *ast.IfStmt:
+		if s.Init != nil {
+			ast.Inspect(s.Init, check)
+		}
+		ast.Inspect(s.Cond, check)
+	}
+	return found
+}
+
 func (rw *rewriter) accessStmts(list []ast.Stmt) []ast.Stmt {
 	var out []ast.Stmt
 	for _, st := range list {
+		if rw.hasAtomic(st) {
+			out = append(out, &ast.ExprStmt{X: call("Point", rw.site(st))})
+			rw.mark("atomic")
+		}
 		acc := rw.collect(st)
 		for _, a := range acc {
 			w := ast.NewIdent("false")
